@@ -21,10 +21,17 @@ func newFixedBigInt(n uint) *fixedBigInt {
 		chunkSize = 1
 	}
 
+	// msbMask keeps the bits of the most significant word that belong to the
+	// n-bit integer: all of them when n is a multiple of 64.
+	msbMask := ^uint64(0)
+	if r := n % 64; r != 0 {
+		msbMask = (1 << r) - 1
+	}
+
 	return &fixedBigInt{
 		bits:    make([]uint64, chunkSize),
 		n:       n,
-		msbMask: (1 << (64 - n%64)) - 1,
+		msbMask: msbMask,
 	}
 }
 
